@@ -45,6 +45,7 @@ const (
 	fPlainWrapsCanceled // a plain error that wraps context.Canceled (the request context is live)
 	fSafeWrapsCanceled  // WrapAsSafeError around context.Canceled
 	fCustomSanitized    // an application type implementing graphql.SanitizedError whose Error() differs from SanitizedError()
+	fBareCanceled       // context.Canceled itself (a child context the resolver cancelled); only used for mutations: a subscription that fails this way is ended silently by design
 )
 
 // customErr is an application error type that marks itself client-safe: only
@@ -54,7 +55,7 @@ type customErr struct{ public, internal string }
 func (e customErr) Error() string          { return e.internal }
 func (e customErr) SanitizedError() string { return e.public }
 
-var kindNames = []string{"plain", "SafeError", "ClientError", "WrapAsSafeError", "safe-wrapped-in-plain", "panic", "plain-wrapping-context.Canceled", "WrapAsSafeError(context.Canceled)", "custom-SanitizedError-type"}
+var kindNames = []string{"plain", "SafeError", "ClientError", "WrapAsSafeError", "safe-wrapped-in-plain", "panic", "plain-wrapping-context.Canceled", "WrapAsSafeError(context.Canceled)", "custom-SanitizedError-type", "bare-context.Canceled"}
 
 type failure struct {
 	typ, field string
